@@ -173,7 +173,7 @@ def one(ins, const_b, rp=0):
     if op == "FastRecurse": return (21, 0, 0)
     if op == "Swap": return (4, 0, 0)
     if op == "CallBlock": return S(0, 0)
-    if op == "LoadBlocks": return S(1, 0)
+    if op == "LoadBlocks": return (22, 0, 0)
     if op == "Include": return S(1, 0)
     if op == "ExportLocals": return S(1, 1)
     if op == "BuildMacro": return S(2, 1)
